@@ -28,6 +28,25 @@ type c05 struct {
 	poison    string
 }
 
+// which branch of FieldUpdater.Merge (= of the model's merge_gen) a tuple takes, for the histogram
+func mergeBranch(code int64, um, wm *fieldmaskpb.FieldMask) string {
+	switch {
+	case code != 0:
+		return "model-branch:rejected-by-Validate"
+	case wm != nil && len(wm.Paths) == 0:
+		return "model-branch:nothing-writable"
+	case um == nil && wm == nil:
+		return "model-branch:nil-update,nil-writable(reset dst)"
+	case um == nil:
+		return "model-branch:nil-update,prune-writable"
+	case len(um.Paths) == 0:
+		return "model-branch:empty-update"
+	case wm == nil:
+		return "model-branch:masked,nil-writable"
+	}
+	return "model-branch:masked,writable-filter"
+}
+
 func (g *c05) classTags() []string {
 	var out []string
 	if g.pairClass != "" {
@@ -497,6 +516,7 @@ func (g *c05) direct(stored, written proto.Message, um, wm, rm *fieldmaskpb.Fiel
 	tags = append(tags, selfClass(rm, "reset:")...)
 	tags = append(tags, "update-tag:"+mtag.String())
 	tags = append(tags, g.classTags()...)
+	tags = append(tags, mergeBranch(code, um, wm))
 	term := vcoq.App("KMerge", vmsg.TypeName(stored), vmsg.Mask(um), vmsg.Mask(wm), vmsg.Mask(rm), vcoq.Int(int(mtag)), vcoq.Int(int(rtag)),
 		vmsg.Value(stored), vmsg.Value(written), vcoq.Z(code), obs)
 	g.o.Add(vcoq.Case{Coq: term, JSON: js, Key: term, NonTrivial: code == 0 && um != nil && len(um.Paths) > 0, Tags: tags})
@@ -591,21 +611,22 @@ func (g *c05) viaValue(stored, written proto.Message, allw bool, resw, more, um,
 	tags = append(tags, selfClass(rm, "reset:")...)
 	tags = append(tags, "update-tag:"+mtag.String())
 	tags = append(tags, g.classTags()...)
+	tags = append(tags, mergeBranch(code, umAll, eff))
 	term := vcoq.App("KSet", vmsg.TypeName(stored), boolCoq(allw), vmsg.Mask(resw), vmsg.Mask(more), vmsg.Mask(um), vmsg.Mask(moreu), vmsg.Mask(rm),
 		vcoq.Int(int(mtag)), vcoq.Int(int(rtag)), vmsg.Value(stored), vmsg.Value(written), vcoq.Z(code), obs)
 	g.o.Add(vcoq.Case{Coq: term, JSON: js, Key: term, NonTrivial: code == 0 && um != nil && len(um.Paths) > 0, Tags: tags})
 }
 
 func genC05(o *vcoq.Out, r *vcoq.Rand, tier string) error {
-	o.Header = vmsg.Header + "\nFrom SC Require Import Msg.FmUtils Msg.ProtoOps Masks.Get Masks.Update Masks.C05Judge."
+	o.Header = vmsg.Header + "\nFrom SC Require Import Msg.FmUtils Msg.ProtoOps Masks.Get Masks.Update Masks.Options Masks.C05Judge."
 	o.CaseType = "c05case"
 	o.Judge = "judge"
 	o.Shard = 100
-	o.Rule = "random (stored, written) pairs of TestAllTypes and traits Brightness, AirTemperature, ElectricMode (reflection, tiny alphabets, oneofs / optional scalars / maps / lists / nested messages); update mask by class: nil, empty, 1 path, 2-4 paths, duplicate, parent+child (both orders), corrupted (unknown / through scalar, map, repeated / empty segment); writable mask related to the update mask in every way: nil, empty, equal, parents of the update paths, children of them (update is a parent of a narrower writable path), all-but-one, superset with a parent+child pair, unrelated; extra-writable mask (nil / the missing paths / random); all-writable flag; reset mask nil / empty / valid / parent+child / corrupted. 80% of paths walk fields populated in stored or written. 60% of tuples go to masks.FieldUpdater Validate+Merge directly, 40% through resource.Value.Set + Get. Non-trivial: accepted write with a non-empty update mask; distinct by the full case term."
+	o.Rule = "random (stored, written) pairs of TestAllTypes and traits Brightness, AirTemperature, ElectricMode (reflection, tiny alphabets, oneofs / optional scalars / maps / lists / nested messages); update mask by class: nil, empty, 1 path, 2-4 paths, duplicate, parent+child (both orders), corrupted (unknown / through scalar, map, repeated / empty segment); writable mask related to the update mask in every way: nil, empty, equal, parents of the update paths, children of them (update is a parent of a narrower writable path), all-but-one, superset with a parent+child pair, unrelated; extra-writable mask (nil / the missing paths / random); all-writable flag; reset mask nil / empty / valid / parent+child / corrupted. 80% of paths walk fields populated in stored or written. 24% of the pairs have written = stored or differ from it in exactly one field (reset mask on a populated path / update mask naming a populated repeated field made frequent there). 16% of the tuples carry an INVALID path below a valid path of the same or of a united mask (update / extra-update / writable / extra-writable / reset, nine slot pairs; unknown field, continuation below scalar / map / repeated). 12% of the tuples run Value.Set with a random LIST of 0-6 mask options in order (Masks/Options.v); of the rest 60% go to masks.FieldUpdater Validate+Merge directly, 40% through resource.Value.Set + Get with single options (WithMoreUpdateMask in 35%). Fixed lists: the inputs of every repaired defect, written = stored with every mask kind. Non-trivial: accepted write with a non-empty update mask; distinct by the full case term."
 	g := &c05{o: o, r: r}
 	scale := 1
 	if tier == "thorough" {
-		scale = 15
+		scale = 12 // 15 took 13-14 min with the machine loaded by other checks; keep headroom under 15 min
 	}
 	cfgs := []vmsg.RandCfg{vmsg.DefaultCfg, {FieldPct: 45, Depth: 2, MaxList: 2}, {FieldPct: 15, Depth: 3, MaxList: 3}}
 	for i := 0; i < 900*scale; i++ {
@@ -651,7 +672,7 @@ func genC05(o *vcoq.Out, r *vcoq.Rand, tier string) error {
 		wm := g.writableMask(stored, written, um)
 		g.pairClass = pairClass
 		g.poison = ""
-		if r.Chance(12) {
+		if r.Chance(15) {
 			// a whole LIST of mask options, in order (Masks/Options.v)
 			g.optList(stored, written, wm)
 			continue
